@@ -239,6 +239,29 @@ def api_bkg_estimators(sc, D, E, U=None):
     return out
 
 
+def api_large_statistics(sc, D, E, U=None):
+    """reductions over a large image with a pedestal (a whole frame, big Background2D boxes): float32 inputs must not lose accuracy.
+    The scene's own data are tiled to 360 x 432 pixels in the representation under test."""
+    from astropy.stats import SigmaClip
+    import photutils.background as pb
+    from photutils.segmentation import detect_threshold
+    raw = getattr(D, 'value', D)
+    big = np.tile(np.asarray(np.ma.getdata(raw))[:36, :36], (10, 12)) + np.asarray(1000, dtype=np.asarray(raw).dtype)
+    if isinstance(raw, np.ma.MaskedArray):
+        big = np.ma.MaskedArray(big, mask=np.zeros(big.shape, bool))
+    if U is not None:
+        big = big * U
+    out = {}
+    for cls in (pb.MeanBackground, pb.MedianBackground, pb.SExtractorBackground, pb.StdBackgroundRMS):
+        out[f'flux:{cls.__name__}'] = cls(sigma_clip=None)(big)
+        out[f'flux:{cls.__name__}:clip'] = cls(sigma_clip=SigmaClip(3.0))(big)
+    out['flux:threshold'] = detect_threshold(big, 3.0)
+    b = pb.Background2D(big, (180, 216), filter_size=1, bkg_estimator=pb.MeanBackground())
+    out['flux:bkg2d_median'] = b.background_median
+    out['flux:bkg2d_rms_median'] = b.background_rms_median
+    return out
+
+
 def api_mask_ops(sc, D, E, U=None):
     from photutils.aperture import CircularAperture
     m = CircularAperture(sc['pos'][0], 3.6).to_mask(method='exact')
@@ -263,10 +286,12 @@ def apis():
             ('IRAFStarFinder', _finder(IRAFStarFinder, fwhm=3.0), False), ('StarFinder', _finder(StarFinder, kernel=kern), False),
             ('centroids', api_centroids, False), ('profiles', api_profiles, False), ('calc_total_error', api_total_error, False),
             ('PSFPhotometry', api_psf_photometry, True), ('data_properties', api_data_properties, False),
-            ('background estimators', api_bkg_estimators, False), ('ApertureMask', api_mask_ops, False), ('_filter_data', api_convolve, False)]
+            ('background estimators', api_bkg_estimators, False), ('ApertureMask', api_mask_ops, False), ('_filter_data', api_convolve, False),
+            ('large-frame statistics', api_large_statistics, False)]
 
 
 TOL = {'exact': 1e-10, 'int': 1e-10, 'f32': 3e-4}
+TOL_F32 = {'large-frame statistics': 2e-5}         # sums of 1.5e5 float32 values: a float64 accumulator is required
 
 
 def call(fn, sc, D, E, U=None):
@@ -297,7 +322,7 @@ def sweep(rep, r, nscenes):
             for rname, (conv, tolk) in REPS.items():
                 if tolk == 'int' and not integral:
                     continue
-                if name == 'Background2D' and tolk == 'int':
+                if name in ('Background2D', 'large-frame statistics') and tolk == 'int':
                     continue                                    # documented integer-output rounding
                 rep.case((name, rname, sc['data'].tobytes()), True, kind=f'{name}:{rname}')
                 rep.probe_only += 1
@@ -311,7 +336,7 @@ def sweep(rep, r, nscenes):
                     continue
                 for kk, bv in base.items():
                     gv = num(got.get(kk))
-                    if not close(bv, gv, TOL[tolk]):
+                    if not close(bv, gv, TOL_F32.get(name, TOL[tolk]) if tolk == 'f32' else TOL[tolk]):
                         where = ''
                         if bv is not None and gv is not None and bv.shape == gv.shape == sc['data'].shape:
                             with np.errstate(invalid='ignore'):
